@@ -406,7 +406,7 @@ def bd4(prog, rr):
 
 
 # --------------------------------------------------------------------------------------- DS1 / DS2
-@rule("DS1", ["C15", "C01", "C02"], "dist rewrite: membership over every weight, exclusion per zero weight, both hard, override installed on every path", engine="SAI", floor=4)
+@rule("DS1", ["C15", "C01", "C02", "C09"], "dist rewrite: membership over every weight, exclusion per zero weight, both hard, override installed on every path", engine="SAI", floor=4)
 def ds1(prog, rr):
     f = prog.method("DistConstraintBuilder", "visit_constraint_dist")
     cp = f.params[1]
@@ -421,6 +421,17 @@ def ds1(prog, rr):
             excl = lp
         if "append" in calls and any("weight" in norm(n) for n in walk_local(lp) if isinstance(n, ast.If)):
             sel = lp
+    sel_fn = f
+    if sel is None:
+        # the selection list may be computed by a method of the (per-call) dist scope that the builder calls
+        dsm = prog.cls("ConstraintDistScopeModel")
+        for c in walk_local(f.node):
+            if isinstance(c, ast.Call) and isinstance(c.func, ast.Attribute) and c.func.attr in dsm.methods and not c.args:
+                g = dsm.methods[c.func.attr]
+                for lp in walk_local(g.node):
+                    if isinstance(lp, ast.For) and "weights" in norm(lp.iter) and any(isinstance(n, ast.Call) and call_name(n) == "append" for n in walk_local(lp)) \
+                            and any("weight" in norm(n) for n in walk_local(lp) if isinstance(n, ast.If)):
+                        sel, sel_fn = lp, g
     if member is None:
         rr.finding(f, f.node, "DistConstraintBuilder.visit_constraint_dist", "DS1: no membership range list is built from the weights", text="membership")
     else:
@@ -490,7 +501,7 @@ def ds1(prog, rr):
                 g = [x.replace(" ", "") for x, pos in _guards(sel, n) if pos]
                 rr.inst("selection append guarded by %s" % g)
                 from sa.ir import find_local
-                wl = find_local(f.node, lambda v: ".weight.val()" in norm(v)) or ["weight"]
+                wl = find_local(sel_fn.node, lambda v: ".weight.val()" in norm(v)) or ["weight"]
                 if not any(x in ("%s>0" % w, "%s>=1" % w, "0<%s" % w) for x in g for w in wl):
                     rr.finding(f, n, "DistConstraintBuilder.visit_constraint_dist", "DS2: entries are added to the selection list without the weight > 0 filter; "
                                "a zero-weight entry can be targeted")
@@ -776,6 +787,32 @@ def ft9(prog, rr):
         return out
     a = conv(gi, [("self.t.", "T."), ("self.mask", "MASK")])
     b = conv(nxt[0], [("self.l.t.", "T."), ("self.l.mask", "MASK")])
+
+    def via_helper(f):
+        """the read path converts through one helper method of the list facade (self.<h>(..) / self.l.<h>(..))"""
+        lt = prog.cls("list_t", "vsc.types")
+        for c in walk_local(f.node):
+            if isinstance(c, ast.Call) and isinstance(c.func, ast.Attribute) and norm(c.func.value) in ("self", "self.l") and c.func.attr in lt.methods:
+                h = lt.methods[c.func.attr]
+                if any(isinstance(n, ast.If) and "is_signed" in norm(n.test) for n in walk_local(h.node)):
+                    p0 = h.params[1] if len(h.params) > 1 else "v"
+                    return ["%s: %s" % (h.name, x.replace(p0, "v")) for x in conv_named(h, p0)]
+        return []
+
+    def conv_named(h, var):
+        out = []
+        for n in walk_local(h.node):
+            if isinstance(n, ast.If) and "is_signed" in norm(n.test):
+                for x in walk_local(n):
+                    if isinstance(x, (ast.Assign, ast.AugAssign)) and norm(x.targets[0] if isinstance(x, ast.Assign) else x.target) == var:
+                        out.append(norm(x).replace("self.t.", "T.").replace("self.mask", "MASK"))
+                    if isinstance(x, ast.If):
+                        out.append("if " + norm(x.test).replace("self.t.", "T.").replace("self.mask", "MASK"))
+        return out
+    if not a:
+        a = via_helper(gi)
+    if not b:
+        b = via_helper(nxt[0])
     rr.inst("__getitem__ conversion: %s" % a)
     rr.inst("__iter__ conversion: %s" % b)
     if not a or not b:
